@@ -7,7 +7,7 @@ SCRIPTS = {0: "bits-and-solid-constructors", 1: "gradient-constructors", 2: "set
            4: "set_clip_region-multirect", 5: "filter-table-and-glyph-cache"}
 
 
-NALLOC = {0: 6, 1: 6, 2: 3, 3: 3, 4: 2, 5: 3}      # upper bound on allocations per script (instances beyond the real count are harmless)
+NALLOC = {0: 6, 1: 6, 2: 4, 3: 3, 4: 2, 5: 3}      # upper bound on allocations per script (instances beyond the real count are harmless)
 LIBDEFS = ("-Dmalloc=vp_malloc", "-Dcalloc=vp_calloc", "-Drealloc=vp_realloc")
 
 
